@@ -161,6 +161,15 @@ func coldCase(c *fw.Ctx, id string, k int, strata []stratum) {
 
 func runC11(c *fw.Ctx) {
 	strata := c10Strata()
+	for i := range strata {
+		if strata[i].name == "huge-accounts" {
+			// every case is run some 200 times under the race detector: lists of up to 170
+			// accounts here (the thousands are C10's and the ledger checks' business)
+			strata[i].cfg.Ladder = false
+			strata[i].cfg.Accounts = manyAccounts(170)
+			strata[i].cfg.Fanout = 170
+		}
+	}
 	nG, nM := 8, 6
 	if !c.Quick {
 		nG, nM = 16, 12
